@@ -138,7 +138,10 @@ func (w *World) VerifyUnit(fn *ssa.Function, con *Contract) *UnitResult {
 			return fail(err)
 		}
 		x.frame = locs
-		x.hasFrame = true
+		x.hasFrame = !con.NoFrame
+		if con.NoFrame {
+			x.trusted["no frame specified (writes of the function are not checked against a modifies clause): "+con.Key] = true
+		}
 		if con.Alloc != nil {
 			v, err := x.ghostCall(st, con.Alloc, nil, args)
 			if err != nil {
